@@ -1,0 +1,76 @@
+//go:build verif
+
+package server
+
+import (
+	"context"
+	"net"
+	"net/http"
+	"net/http/httputil"
+	"os"
+	"strconv"
+	"strings"
+	"sync/atomic"
+	"syscall"
+)
+
+// Verification hooks (build tag "verif"). Nothing in here is compiled into a
+// normal build; see verif_off.go for the inert counterparts.
+
+// VerifHook, when set, is called at every named hook point. It may record the
+// event, delay the caller or crash the process; it must not touch proxy state.
+var VerifHook atomic.Pointer[func(point string, args ...any)]
+
+// VerifDial, when set, replaces the dialer of every per-target transport, so
+// that a harness can run targets on an in-memory network.
+var VerifDial atomic.Pointer[func(ctx context.Context, network, addr string) (net.Conn, error)]
+
+// VerifHandler exposes the full middleware chain of a Server without starting
+// its TCP listeners.
+func VerifHandler(s *Server) http.Handler { return s.buildHandler() }
+
+func verifPoint(point string, args ...any) {
+	if h := VerifHook.Load(); h != nil {
+		(*h)(point, args...)
+	}
+}
+
+func verifTransport(handler any) {
+	rp, ok := handler.(*httputil.ReverseProxy)
+	if !ok {
+		return
+	}
+	tr, ok := rp.Transport.(*http.Transport)
+	if !ok {
+		return
+	}
+	tr.DialContext = func(ctx context.Context, network, addr string) (net.Conn, error) {
+		if d := VerifDial.Load(); d != nil {
+			return (*d)(ctx, network, addr)
+		}
+		return (&net.Dialer{}).DialContext(ctx, network, addr)
+	}
+}
+
+// VERIF_CRASH=<point>:<n> makes the process kill itself (SIGKILL, no cleanup)
+// the n-th time the named hook point is reached. Used to crash the real binary
+// at chosen step boundaries.
+func init() {
+	spec := os.Getenv("VERIF_CRASH")
+	if spec == "" {
+		return
+	}
+	point, nth, ok := strings.Cut(spec, ":")
+	n, err := strconv.Atoi(nth)
+	if !ok || err != nil || n < 1 {
+		return
+	}
+	var seen atomic.Int64
+	hook := func(p string, args ...any) {
+		if p == point && seen.Add(1) == int64(n) {
+			_ = syscall.Kill(os.Getpid(), syscall.SIGKILL)
+			select {}
+		}
+	}
+	VerifHook.Store(&hook)
+}
